@@ -25,8 +25,11 @@ def check(ctx):
     insertion(ctx, P)
     start_sites(ctx, P, views, iters)
     moves(ctx, P, views, iters)
-    from . import c12
+    from . import c12, c15
     c12.interrupted_sorted(ctx, P, views, iters)
+    # the priority of a class is looked up under the class's own name (shared instance)
+    c15.keyed_tables(ctx, P)
+    priority_table(ctx, P)
     ctx.assume("built-in disciplines (FIFO/LIFO/SIRO); custom disciplines are excluded by the property")
 
 
@@ -73,6 +76,37 @@ def chooser(ctx, P, views):
         ob.ok("%s.choose_next_customer" % view.name, unparse(fn).split("\n")[-4].strip())
         if not ok:
             ctx.violation(ob, "R6.chooser", "%s.choose_next_customer" % cls.name, "priority scan", "chooser-shape", why, loc(fn))
+
+
+def priority_table(ctx, P):
+    """Network.priority_class_mapping / params['priority_classes'] map each class name to ITS OWN priority: built by key lookup"""
+    ob = ctx.ob("PMAP", "priority tables are built as {name: source[name] ...}: every class gets the priority declared under its own name")
+    n = 0
+    for ci, fn in P.all_functions():
+        if fn._module.name not in ("ciw.import_params", "ciw.network"):
+            continue
+        for x in ast.walk(fn):
+            if isinstance(x, ast.Assign) and any("priority_class" in unparse(t) for t in x.targets) and isinstance(x.value, (ast.DictComp, ast.Call, ast.Dict)):
+                tgt = unparse(x.targets[0])
+                if not (tgt.endswith("priority_class_mapping") or tgt.endswith("['priority_classes']") or tgt.endswith('["priority_classes"]')):
+                    continue
+                n += 1
+                v = x.value
+                okk = False
+                if isinstance(v, ast.DictComp) and len(v.generators) == 1 and isinstance(v.generators[0].target, ast.Name):
+                    k = v.generators[0].target.id
+                    subs = [y for y in ast.walk(v.value) if isinstance(y, ast.Subscript) and isinstance(y.slice, ast.Name) and y.slice.id == k]
+                    okk = unparse(v.key) == k and bool(subs)
+                elif isinstance(v, ast.DictComp) and len(v.generators) == 1 and isinstance(v.generators[0].target, ast.Tuple) and len(v.generators[0].target.elts) == 2 \
+                        and isinstance(v.generators[0].iter, ast.Call) and isinstance(v.generators[0].iter.func, ast.Attribute) and v.generators[0].iter.func.attr == "items":
+                    # {name: entry.priority_class for name, entry in classes.items()}: key and value come from the same item
+                    k, e_ = [unparse(t) for t in v.generators[0].target.elts]
+                    okk = unparse(v.key) == k and any(isinstance(y, ast.Name) and y.id == e_ for y in ast.walk(v.value))
+                ob.ok("%s:%s" % (P.func_name(fn), tgt), "%s: %s" % (P.func_name(fn), unparse(x)[:90]))
+                if not okk:
+                    ctx.violation(ob, "R12.priority-table", P.func_name(fn), unparse(x)[:100], "priority-not-looked-up-by-name",
+                                  "the priority table must give each class the priority stored under that class's own name ({name: source[name] for name in names})", loc(x))
+    ctx.floor("priority tables built", n, 2)
 
 
 def disciplines(ctx, P):
